@@ -160,6 +160,21 @@ def _parts(ctx, expr, fi, facts, depth=0):
                 out.append(('var', u(v.value)))
         return out
     if isinstance(expr, ast.Call) and isinstance(expr.func, ast.Attribute) and expr.func.attr == 'format' \
+            and isinstance(expr.func.value, ast.Name):
+        # a template given a name at module level: WHOLE_NAME = '^(?:{})$'
+        from sa.normalize import module_literals
+        lit = module_literals(fi.module).get(expr.func.value.id)
+        if isinstance(lit, ast.Constant) and isinstance(lit.value, str):
+            import copy as _copy
+            e2 = _copy.copy(expr)
+            e2.func = ast.Attribute(value=lit, attr='format', ctx=ast.Load())
+            return _parts(ctx, e2, fi, facts, depth + 1)
+    if isinstance(expr, ast.Name):
+        from sa.normalize import module_literals
+        lit = module_literals(fi.module).get(expr.id) if fi is not None else None
+        if isinstance(lit, ast.Constant) and isinstance(lit.value, str):
+            return [('lit', lit.value)]
+    if isinstance(expr, ast.Call) and isinstance(expr.func, ast.Attribute) and expr.func.attr == 'format' \
             and isinstance(expr.func.value, ast.Constant) and isinstance(expr.func.value.value, str):
         tpl = expr.func.value.value
         out = []
